@@ -865,7 +865,8 @@ func runC11(c *Ctx) {
 		c.check(wait != nil, "R9", spec.fn+" sweep after join", pos(rng), "the sweep runs after wg.Wait()", "the sweep runs before all workers have ended: objects opened by a still-running worker are missed")
 		allRet := true
 		for _, r := range findInstrs(fn, isReturn) {
-			if !dominates(rng, r) {
+			// (an exit taken after the join because the table is empty has nothing to sweep)
+			if !dominates(rng, r) && !(wait != nil && behindEmptyTableTest(fn, r, spec.table, wait)) {
 				allRet = false
 			}
 		}
